@@ -301,6 +301,41 @@ def autocatalytic_family(ctx):
         ctx.count("autocatalytic_family")
 
 
+def interface_parameter_vector(ctx):
+    """an interface handed another parameter vector (py_set_param_values with an array of its own, as a parameter sweep over
+    one interface does): the rates it computes are the closed forms at the values it reports, in all four forms, for the
+    plain and the safe interface."""
+    from bioscrape.simulator import ModelCSimInterface, SafeModelCSimInterface
+    spec = {"species": list(SPECIES), "reactions": [
+        {"reactants": ["A", "A", "B"], "products": ["C"], "prop": {"type": "massaction", "k": "k0"}},
+        {"reactants": [], "products": ["C"], "prop": {"type": "hillpositive", "k": "k1", "K": "K1", "n": "n1", "s1": "B"}},
+        {"reactants": [], "products": ["A"], "prop": {"type": "massaction", "k": "k2"}}],
+        "params": {"k0": Fraction(1, 2), "k1": Fraction(3), "K1": Fraction(2), "n1": 2.0, "k2": Fraction(1)}, "ic": {}}
+    pt = {"x": {"A": Fraction(3), "B": Fraction(2), "C": Fraction(1)}, "V": Fraction(2), "t": Fraction(0)}
+    for cls in (ModelCSimInterface, SafeModelCSimInterface):
+        M = build_model(spec)
+        I = cls(M)
+        pl = M.get_param_list()
+        x = state_vector(M, pt["x"])
+        for step, factor in enumerate((1.0, 2.0, 0.5, 4.0)):
+            case = {"scenario": "interface given a parameter vector of its own", "interface": cls.__name__, "factor": factor, "step": step}
+            ctx.begin_case(case)
+            newp = np.array([float(spec["params"][q]) * (factor if q != "n1" else 1.0) if q in spec["params"] else float(v) for q, v in zip(pl, M.get_parameter_values())])
+            if step:
+                I.py_set_param_values(newp)
+            held = dict(zip(pl, [float(v) for v in I.py_get_param_values()]))
+            ctx.evaluated()
+            for m in MODES:
+                got = [float(v) for v in I.py_verif_compute_propensities(x.copy(), m, float(pt["V"]), 0.0)]
+                for ri, rxn in enumerate(spec["reactions"]):
+                    want = float(closed_form(rxn["prop"], rxn["reactants"], pt["x"], held, pt["V"])[m])
+                    if relerr(got[ri], want) > 1e-9:
+                        ctx.violation("interface-parameters/" + m, "%s after py_set_param_values(%s): %s rate of reaction %d is %r, the closed form at the values the interface reports %r"
+                                      % (cls.__name__, newp.tolist(), m, ri, got[ri], want), dict(case, held=held))
+                        return
+            ctx.count("interface_parameter_vectors")
+
+
 def run(ctx):
     lineage_interface_rates(ctx)
     npts = 4 if ctx.quick() else 12
@@ -308,6 +343,7 @@ def run(ctx):
         pts = gen_points(ctx.rng, npts)
         check_spec(ctx, spec, pts)
     autocatalytic_family(ctx)
+    interface_parameter_vector(ctx)
 
 
 def replay(ctx, obj):
